@@ -24,15 +24,18 @@ func TestMain(m *testing.M) {
 	rec.Assume("oracle: gc toolchain on the same text; the compiled callback drivers (rec.Par, rec.Seq, rec.Fold, rec.Apply) are the same source on both sides")
 	rec.Assume("values of interpreted named types reach compiled code only through the interfaces the import tables have proxies for (documented)")
 	fast.New()
+	if conc.IsReplayChild() {
+		conc.ReplayChild(rec, cfg())
+	}
 	os.Exit(vlib.Main(m, rec))
 }
 
 func known(p gobatch.Program, got, want gobatch.Result) string { return "" }
 
 func cfg() gobatch.Config {
-	return gobatch.Config{Rec: rec, Name: "c11", N: rec.Scale(250, 2500), Gen: Generate, Known: known, Interp: conc.Run(2, 5)}
+	return gobatch.Config{Rec: rec, Name: "c11", N: rec.Scale(250, 2500), Gen: Generate, Known: known, Interp: conc.Run(rec, 2, 5)}
 }
 
 func TestInterop(t *testing.T) { gobatch.Run(t, cfg()) }
 
-func TestReplays(t *testing.T) { rec.RunReplays(t, gobatch.ReplayerWith(cfg())) }
+func TestReplays(t *testing.T) { rec.RunReplays(t, conc.SubprocessReplayer()) }
